@@ -57,6 +57,13 @@ def seq_len(ctx, v):
     if isinstance(v, VecV):
         if v.elems is None:
             return Sc("usize", v.opaque.len)
+        ops = [e for e in v.elems if isinstance(e, Opaque)]
+        if ops:
+            # concatenation of single bytes and opaque strings (hand-assembled output)
+            n = z3.BitVecVal(len(v.elems) - len(ops), 64)
+            for o in ops:
+                n = n + (o.len if is_sym(o.len) else z3.BitVecVal(o.len, 64))
+            return Sc("usize", z3.simplify(n))
         return Sc("usize", len(v.elems))
     if isinstance(v, Arr):
         return Sc("usize", len(v.fields))
@@ -767,13 +774,17 @@ def vec_model(eng, ctx, cp, self_ty, trait, m, args):
     if not args:
         return NO_MODEL
     v = deref(args[0])
-    if not isinstance(v, (VecV, Arr)):
+    if isinstance(v, Arr):
+        v = VecV(v.fields, None, "vec")          # fixed-size array: same element list, by reference
+    if not isinstance(v, VecV):
         return NO_MODEL
     if m == "len":
         return seq_len(ctx, v)
     if m == "is_empty":
         return seq_is_empty(ctx, v)
     if m == "push":
+        if v.elems is None:
+            v.elems, v.opaque = [v.opaque], None       # becomes a concatenation
         v.elems.append(args[1])
         return UNIT
     if m == "clear":
@@ -833,12 +844,17 @@ def vec_model(eng, ctx, cp, self_ty, trait, m, args):
             _panic("index", "insertion index (is %d) should be <= len (is %d)" % (i, len(v.elems)), cp.raw)
         v.elems.insert(i, args[2])
         return UNIT
-    if m == "extend_from_slice" and v.elems is not None:
+    if m == "extend_from_slice":
         o = deref(args[1])
+        if isinstance(o, Arr):
+            o = VecV(o.fields, None, "vec")
+        if v.elems is None:
+            v.elems, v.opaque = [v.opaque], None
         if o.elems is None:
-            if v.elems:
-                _unsupported("extend_from_slice with an opaque byte string onto a non-empty vector")
-            v.elems, v.opaque = None, o.opaque
+            if not v.elems:
+                v.elems, v.opaque = None, o.opaque
+            else:
+                v.elems.append(o.opaque)
         else:
             v.elems.extend(o.elems)
         return UNIT
@@ -1150,6 +1166,20 @@ def set_model(eng, ctx, self_ty, m, args):
         return mk_bool(len(s.elems) == 0)
     if m == "len":
         return Sc("usize", len(s.elems))
+    if m == "clear":
+        s.elems[:] = []
+        return UNIT
+    if m == "remove":
+        found, i = _set_search(eng, ctx, et, s, deref(args[1]))
+        if found:
+            s.elems.pop(i)
+        return mk_bool(found)
+    if m == "iter":
+        return IterV([Ref(s.elems, i) for i in range(len(s.elems))])
+    if m in ("first", "last"):
+        if not s.elems:
+            return OPT_NONE()
+        return OPT_SOME(Ref(s.elems, 0 if m == "first" else len(s.elems) - 1))
     return NO_MODEL
 
 
@@ -1325,6 +1355,25 @@ def str_model(eng, ctx, cp, m, args):
         return str_trim(ctx, r, back=False)
     if m == "trim_end":
         return str_trim(ctx, r, front=False)
+    if m in ("trim_matches", "trim_start_matches", "trim_end_matches"):
+        pat = args[1]
+        chars = decode_chars(ctx, v)
+
+        def hit(c):
+            if isinstance(pat, Sc):
+                return (int(c.v) == int(pat.v)) if not is_sym(c.v) and not is_sym(pat.v) else \
+                    ctx.branch(bv(c) == bv(pat), "trim-pat")
+            return _truth(ctx, eng.call_fnv(ctx, pat, [c]), "trim-pat")
+        i, j = 0, len(chars)
+        if m != "trim_end_matches":
+            while i < j and hit(chars[i][0]):
+                i += 1
+        if m != "trim_start_matches":
+            while j > i and hit(chars[j - 1][0]):
+                j -= 1
+        a = chars[i][1] if i < len(chars) else len(v.elems)
+        b = (chars[j - 1][1] + chars[j - 1][2]) if j > i else a
+        return str_slice(v, a, max(a, b))
     if m == "matches":
         return str_matches_count(ctx, r, args[1])
     if m == "split" and isinstance(args[1], Sc):
@@ -1406,7 +1455,11 @@ def stub_from_reader(eng, ctx, args):
         data = bytes(int(x.v) for x in seq.elems)
         try:
             tree, pos = concrete.decode(data, 0)
-        except (concrete.DecodeError, UnicodeDecodeError, ValueError):
+        except concrete.DecodeError as e:
+            if str(e) == "eof":      # input ended inside (or before) an item: ciborium reports Io(EndOfFile)
+                return ERR(Adt("de::Error", "Io", [Adt("EndOfFile", None, [])]))
+            return ERR(Adt("de::Error", "Syntax", [Sc("usize", 0)]))
+        except (UnicodeDecodeError, ValueError):
             return ERR(Adt("de::Error", "Syntax", [Sc("usize", 0)]))
         rd.set(Ref(Cell(VecV([Sc("u8", b) for b in data[pos:]], None, "vec"))))
         return OK(concrete.tree_to_value(tree))
@@ -1490,9 +1543,12 @@ def stub_into_writer(eng, ctx, args):
     ctx.side.setdefault("written", {})[out.opaque.ident] = snap
     ctx.side.setdefault("writer_calls", []).append((out.opaque.ident, snap))
     if isinstance(w, VecV):
+        if w.elems is None and w.opaque is not None:
+            w.elems, w.opaque = [w.opaque], None
         if w.elems:
-            _unsupported("into_writer into a non-empty buffer")
-        w.elems, w.opaque = None, out.opaque
+            w.elems.append(out.opaque)          # appended to hand-assembled output
+        else:
+            w.elems, w.opaque = None, out.opaque
     else:
         _unsupported("writer %r" % (w,))
     return OK(UNIT)
